@@ -34,7 +34,7 @@ type c17SeqResult struct {
 }
 
 var c17SeqAlpha = []string{
-	"get:1", "get:2", "get:3", "get:9", "get:101",
+	"get:1", "get:2", "get:3", "get:9", "get:101", "getnil:1",
 	"hold:1", "hold:2", "hold:9",
 	"rel", "reln",
 	"del:1", "del:2", "del:9",
@@ -131,6 +131,18 @@ func (w *c17SeqWorld) apply(step int, op string) {
 		w.doGet(arg, false)
 	case "hold":
 		w.doGet(arg, true)
+	case "getnil":
+		// a fill that fails (the constructor has no value to offer, as when a table cannot be
+		// opened): Get returns nil and leaves nothing behind - in particular no lock
+		ns, key, _ := c17Key(arg)
+		if lv := w.live[w.mkey(ns, key)]; lv != nil {
+			break // only meaningful on a key without a live value
+		}
+		h := w.c.Get(ns, key, func() (int, cache.Value) { return 0, nil })
+		if h != nil {
+			w.bad("Get(%d/%d) with a failing constructor returned a handle", ns, key)
+			h.Release()
+		}
 	case "rel":
 		if len(w.held) > 0 {
 			w.release(0)
@@ -208,6 +220,12 @@ func runC17Seq(capacity int, ops []string) (viol []string, steps int, maxRet int
 	w := &c17SeqWorld{charge: map[*cval]int{}, capNow: capacity}
 	w.live, w.out, w.delCalls = map[uint64]*cval{}, map[*cval]int{}, map[string]int{}
 	w.c = cache.NewCache(cache.NewLRU(capacity))
+	defer func() {
+		// outside the scheduler a shim operation that would block for ever panics
+		if r := recover(); r != nil {
+			viol = append(viol, fmt.Sprintf("operation %d never returns (single goroutine): %v", steps, r))
+		}
+	}()
 	for i, op := range ops {
 		w.apply(i, op)
 		steps++
